@@ -10,6 +10,7 @@ pub fn run(tier: Tier) -> i32 {
     let ctx = Ctx::new("C16", tier);
     let dense = tier.pick(100_000u64, 1_000_000);
     let kmax = 6usize;
+    let vdense = tier.pick(10_000u64, 100_000);
     let gset: Vec<u32> = tier.pick(G_Q.to_vec(), G_T.to_vec());
     // shards: (lang, kind, lo, hi)
     let mut shards: Vec<(L, u8, u64, u64)> = vec![];
@@ -19,6 +20,12 @@ pub fn run(tier: Tier) -> i32 {
         while lo < dense {
             let hi = (lo + chunk).min(dense);
             shards.push((l, 0, lo, hi));
+            lo = hi;
+        }
+        let mut lo = 0;
+        while lo < vdense {
+            let hi = (lo + 1000).min(vdense);
+            shards.push((l, 2, lo, hi));
             lo = hi;
         }
         let total = (gset.len() as u64).pow(3);
@@ -32,12 +39,12 @@ pub fn run(tier: Tier) -> i32 {
     }
     let mut acc = par_shards(shards, |&(l, kind, lo, hi), acc| {
         let lang = l.facade();
-        let zero = l.zero();
-        let mut one = |n: u64, acc: &mut Acc| {
+        let zero_std = l.zero();
+        let mut one = |n: u64, v: Var, zero: &str, acc: &mut Acc| {
             if n == 0 {
                 return;
             }
-            let text = spell::spell(l, n, Var::default());
+            let text = spell::spell(l, n, v);
             if l == L::De && text.contains("eine ") {
                 return; // known finding of C01
             }
@@ -95,14 +102,31 @@ pub fn run(tier: Tier) -> i32 {
         };
         if kind == 0 {
             for n in lo..hi {
-                one(n, acc);
+                one(n, Var::default(), zero_std, acc);
+            }
+        } else if kind == 2 {
+            // the other zero words the language accepts (homogeneous runs)
+            if l == L::En {
+                for z in ["o", "nought"] {
+                    for n in lo..hi {
+                        one(n, Var::default(), z, acc);
+                    }
+                }
+            }
+            // accepted orthographic variants (one axis at a time) below the variant bound
+            for (_, v) in spell::axes(l) {
+                for n in lo..hi {
+                    if spell::spell(l, n, v) != spell::spell(l, n, Var::default()) {
+                        one(n, v, zero_std, acc);
+                    }
+                }
             }
         } else {
             let g = gset.len() as u64;
             for idx in lo..hi {
                 let n = (gset[(idx / g / g % g) as usize] as u64 * 1000 + gset[(idx / g % g) as usize] as u64) * 1000 + gset[(idx % g) as usize] as u64;
                 if n >= dense {
-                    one(n, acc);
+                    one(n, Var::default(), zero_std, acc);
                 }
             }
         }
@@ -130,7 +154,7 @@ pub fn run(tier: Tier) -> i32 {
     let cov = json!({
         "exhaustive": true,
         "rule": "every (language, n, k): k spoken zeros + standard spelling of n through validator and scanner; spell(n) + zero; lone zero",
-        "bounds": {"dense_n_below": dense, "k_max": kmax, "group_product": format!("{}^3 (n < 10^9)", gset.len())},
+        "bounds": {"dense_n_below": dense, "single_axis_variants_n_below": vdense, "zero_aliases": "en: o, nought (n below the variant bound)", "k_max": kmax, "group_product": format!("{}^3 (n < 10^9)", gset.len())},
     });
-    ctx.finish(acc, cov, vec!["standard spellings only (variants are C01's subject); de numbers spelled with 'eine Million' are skipped (known finding of C01)".into()])
+    ctx.finish(acc, cov, vec!["standard spellings, plus each accepted orthographic variant alone below the variant bound; de numbers spelled with 'eine Million' are skipped (known finding of C01)".into()])
 }
